@@ -157,6 +157,8 @@ struct Inner {
     monitor: Option<StepMonitor>,
     enforce_liveness: bool,
     probes: BTreeMap<&'static str, u64>,
+    watch: Vec<&'static str>,
+    watched: Vec<(&'static str, u64)>,
 }
 
 pub struct Sim {
@@ -214,6 +216,8 @@ impl Sim {
                 monitor: None,
                 enforce_liveness: true,
                 probes: BTreeMap::new(),
+                watch: Vec::new(),
+                watched: Vec::new(),
             }),
             slots: RwLock::new(Vec::new()),
             now_wall: AtomicU64::new(epoch),
@@ -417,6 +421,17 @@ impl Sim {
         self.inner.lock().unwrap().hash.bytes(b);
     }
 
+    /// Record the global event number each time one of `sites` is passed.
+    pub fn watch_sites(&self, sites: &[&'static str]) {
+        let mut g = self.inner.lock().unwrap();
+        g.watch = sites.to_vec();
+        g.watched.clear();
+    }
+
+    pub fn take_watched(&self) -> Vec<(&'static str, u64)> {
+        std::mem::take(&mut self.inner.lock().unwrap().watched)
+    }
+
     pub fn probe(&self, name: &'static str) {
         *self.inner.lock().unwrap().probes.entry(name).or_insert(0) += 1;
     }
@@ -558,6 +573,10 @@ impl Sim {
     fn choose(&self, g: &mut Inner, me: usize, site: &'static str) -> usize {
         *g.site_hits.entry(site).or_insert(0) += 1;
         g.threads[me].last_site = site;
+        if !g.watch.is_empty() && g.watch.contains(&site) && g.watched.len() < 4096 {
+            let ev = self.event_seq.load(Ordering::SeqCst);
+            g.watched.push((site, ev));
+        }
         let mut enabled: Vec<(usize, bool)> = Vec::with_capacity(g.threads.len());
         loop {
             enabled.clear();
